@@ -12,7 +12,7 @@ against the patched tree with its own build/evidence/replay directories; write
 under /tmp it created."""
 import argparse, json, os, shutil, subprocess, sys, time
 
-V = "/verif"
+V = os.environ.get("VERIF_HOME", "/verif")
 
 
 def sh(cmd, **kw):
